@@ -2,6 +2,7 @@ pub mod broad;
 pub mod build;
 pub mod mk;
 pub mod gen;
+pub mod lexers;
 pub mod model;
 pub mod outcome;
 pub mod spec;
